@@ -86,6 +86,8 @@ pub fn fill_common(rep: &mut CaseReport, res: &SessionResult, world: &World) {
     rep.count("sched.clock_jumps", fin.stats.clock_jumps);
     rep.count("sched.io_stalls", fin.stats.io_stalls);
     rep.count("sched.client_stalls", fin.stats.client_stalls);
+    rep.count("sched.pct_runs", fin.stats.pct_run);
+    rep.count("sched.pct_priority_changes", fin.stats.pct_changes);
     rep.count("probe.poll_batch_ge3", if fin.stats.max_poll_batch >= 3 { 1 } else { 0 });
     let b = &world.broker.stats;
     rep.count("broker.frames_in", b.frames_in);
@@ -146,7 +148,7 @@ pub fn plan_summary(g: &Generated) -> serde_json::Value {
         "tuning": format!("{:?}", g.plan.tuning),
         "net": format!("{:?}", g.net),
         "broker": {"think_max_ns": g.broker.think_max_ns, "seg_mode": format!("{:?}", g.broker.seg_mode), "mux_burst_max": g.broker.mux_burst_max, "tune": format!("{:?}", g.broker.tune)},
-        "sched": {"stick_pct": g.sched.stick_pct, "io_atomic": g.sched.io_atomic},
+        "sched": {"stick_pct": g.sched.stick_pct, "io_atomic": g.sched.io_atomic, "pct": g.sched.pct, "pct_points": g.sched.pct_points.clone()},
     })
 }
 
